@@ -20,6 +20,10 @@ pub enum Pos {
     Value,
     /// `f INTEGER (lo..hi) DEFAULT x`
     Default,
+    /// `s INTEGER (lo..lo) ::= lo` and `v SEQUENCE OF INTEGER (lo..hi) ::= { s, x }`: the element
+    /// type of the constant must not be taken from its first (narrower) item; two spellings of
+    /// the constant's name, sorting before and after `s`
+    SeqOfValue,
     /// union / serial combination (random)
     Combo,
     /// the same as a SEQUENCE component (a different width-selection routine)
@@ -100,6 +104,10 @@ fn case_text(i: usize, c: &Case) -> String {
         Pos::RefWide => format!("T{i} ::= Wide {k}"),
         Pos::Value => format!("T{i} ::= INTEGER {k}\nv{i} T{i} ::= {}", c.x.unwrap()),
         Pos::Default => format!("T{i} ::= SEQUENCE {{ f INTEGER {k} DEFAULT {} }}", c.x.unwrap()),
+        Pos::SeqOfValue => {
+            let lo = c.lo.unwrap();
+            format!("T{i} ::= NULL\nm-first{i} INTEGER ({lo}..{lo}) ::= {lo}\na-list{i} SEQUENCE OF INTEGER {k} ::= {{ m-first{i}, {x} }}\nz-list{i} SEQUENCE OF INTEGER {k} ::= {{ m-first{i}, {x} }}\np-list{i} SEQUENCE OF INTEGER {k} ::= {{ {lo}, {x} }}", x = c.x.unwrap())
+        }
     }
 }
 
@@ -134,11 +142,11 @@ fn int_literals(init: &str) -> Vec<(i128, Option<String>)> {
     let mut out = vec![];
     let mut i = 0;
     while i < toks.len() {
-        let t = toks[i].trim_matches(|c| c == '(' || c == ')' || c == ',');
+        let t = toks[i].trim_matches(|c| c == '(' || c == ')' || c == ',' || c == '[' || c == ']');
         let neg = i > 0 && toks[i - 1].ends_with('-');
         let digits: String = t.chars().take_while(|c| c.is_ascii_digit()).collect();
         if !digits.is_empty() && t.starts_with(|c: char| c.is_ascii_digit()) {
-            let suffix: String = t.chars().skip(digits.len()).collect();
+            let suffix: String = t.chars().skip(digits.len()).take_while(|c| c.is_ascii_alphanumeric()).collect();
             if let Ok(v) = digits.parse::<i128>() {
                 out.push((if neg { -v } else { v }, if suffix.is_empty() { None } else { Some(suffix) }));
             }
@@ -194,6 +202,22 @@ fn observe(m: &RModule, i: usize, c: &Case) -> Result<Obs, String> {
                         None => func.ret.clone(),
                     };
                     o.literals.push((format!("{fname}() {{ {} }}", func.body), declared, v));
+                }
+            }
+        }
+        Pos::SeqOfValue => {
+            for name in [format!("A_LIST{i}"), format!("Z_LIST{i}"), format!("P_LIST{i}")] {
+                let k = m.find_const(&name).ok_or_else(|| format!("constant {name} missing"))?;
+                let inner = k.ty.trim_start_matches("Vec<").trim_start_matches("SequenceOf<").trim_end_matches('>').to_string();
+                let decl = payload_int(m, &inner, 0).ok_or_else(|| format!("{name}: type {} has no integer element", k.ty))?;
+                o.types.push((format!("{name} element type"), decl.clone()));
+                for (v, suffix) in int_literals(&k.init) {
+                    let declared = match suffix {
+                        Some(s) if s == "i128" => "Integer".to_string(),
+                        Some(s) => s,
+                        None => decl.clone(),
+                    };
+                    o.literals.push((format!("{name} = {}", k.init), declared, v));
                 }
             }
         }
@@ -457,6 +481,9 @@ pub fn run(tier: Tier, seed: u64, replay: Option<String>) -> i32 {
                     for x in xs {
                         cases.push(Case { pos: Pos::Value, x: Some(x), ..base.clone() });
                         cases.push(Case { pos: Pos::Default, x: Some(x), ..base.clone() });
+                        if lo.is_some() && hi.is_some() && !ext && pair_idx % 2 == 0 {
+                            cases.push(Case { pos: Pos::SeqOfValue, x: Some(x), ..base.clone() });
+                        }
                     }
                 }
             }
